@@ -6,6 +6,7 @@ import SciVerif.Lemmas.C03i
 import SciVerif.Lemmas.C03m
 import SciVerif.Lemmas.C03p
 import SciVerif.Lemmas.C03q
+import SciVerif.Lemmas.C03r
 import SciVerif.Facts.C03F1
 import SciVerif.Facts.C03F2
 import SciVerif.Facts.C03F3
@@ -421,6 +422,30 @@ theorem C03_reject_nested_unreadable (T : Tables) (hT : noBlankHead T) (piece po
   obtain ⟨err, h, hf, _⟩ := C03_reject_text T _ (.inPar pre2 inner tail hpre2 hin h1)
   exact ⟨err, h, hf⟩
 
+/-- REJECTION OF A MISSING OPERAND, TEXT LEVEL.  (1) A text that begins (after blanks) with `*` or
+    `/` is rejected, whatever follows.  (2) A text `pre c rest` with `c` one of `*`, `/` behind any
+    parenthesis-free `pre`, where `rest` is blank (operator at the end) or is blanks followed by
+    another `*` or `/` and then ANYTHING (two operator signs in a row), is rejected.  In both cases
+    `UnitSolver`, `BaseUnits(text)` and `Quantity(1,text)` fail with the same, non-fuel error. -/
+theorem C03_reject_missing_operand (T : Tables) (c : Char) (hc : isOpChar c) :
+    (∀ (l rest : Str), blank l →
+      ∃ err, unitSolver T (l ++ c :: rest) = .error err ∧ err ≠ .fuel ∧
+        baseUnitsOfText T (l ++ c :: rest) = .error err ∧ quantityOfText T (l ++ c :: rest) = .error err) ∧
+    (∀ (pre rest : Str), '(' ∉ pre →
+      ((∃ mid c2 post, rest = mid ++ c2 :: post ∧ blank mid ∧ isOpChar c2) ∨ blank rest) →
+      ∃ err, unitSolver T (pre ++ c :: rest) = .error err ∧ err ≠ .fuel ∧
+        baseUnitsOfText T (pre ++ c :: rest) = .error err ∧ quantityOfText T (pre ++ c :: rest) = .error err) := by
+  have fin : ∀ s, (∃ err, unitSolver T s = .error err) →
+      ∃ err, unitSolver T s = .error err ∧ err ≠ .fuel ∧
+        baseUnitsOfText T s = .error err ∧ quantityOfText T s = .error err := by
+    rintro s ⟨err, herr⟩
+    refine ⟨err, herr, ?_, ?_, ?_⟩
+    · intro h; rw [h] at herr; exact unitSolver_no_fuel T _ herr
+    · unfold baseUnitsOfText; rw [herr]
+    · unfold quantityOfText; rw [herr]
+  exact ⟨fun l rest hl => fin _ (unitSolver_missing_left T l c rest hl hc),
+    fun pre rest hpre hshape => fin _ (unitSolver_missing_right T pre c rest hpre hc hshape)⟩
+
 /-! ## non-vacuity: concrete instances of the hypotheses and of the conclusions -/
 example : ∃ u ∈ Gen.tables.units, u.sym = ['m'] ∧ ['d','a'] ∈ [] :: admPrefixes Gen.tables u := by
   decide +kernel
@@ -488,5 +513,20 @@ example : BadText Gen.tables ("kg*(m/( xkm *s)) /J(".toList) ∧ BadText Gen.tab
     .afterOp _ '*' _ (by decide) (Or.inl rfl) h3
   exact ⟨h4, .afterOp "m".toList '*' "(s".toList (by decide) (Or.inl rfl)
     (.open [] "s".toList (by simp) (by decide))⟩
+
+/-- `kg* /m(`, `kg*m/ ` and ` *m)(` are instances of `C03_reject_missing_operand` -/
+example : (∃ err, unitSolver Gen.tables ("kg".toList ++ '*' :: (" ".toList ++ '/' :: "m(".toList)) = .error err) ∧
+    (∃ err, unitSolver Gen.tables ("kg*m".toList ++ '/' :: " ".toList) = .error err) ∧
+    (∃ err, unitSolver Gen.tables (" ".toList ++ '*' :: "m)(".toList) = .error err) := by
+  refine ⟨?_, ?_, ?_⟩
+  · obtain ⟨err, h, _⟩ := (C03_reject_missing_operand Gen.tables '*' (Or.inl rfl)).2 "kg".toList
+      (" ".toList ++ '/' :: "m(".toList) (by decide) (Or.inl ⟨" ".toList, '/', "m(".toList, rfl, by unfold blank; decide, Or.inr rfl⟩)
+    exact ⟨err, h⟩
+  · obtain ⟨err, h, _⟩ := (C03_reject_missing_operand Gen.tables '/' (Or.inr rfl)).2 "kg*m".toList
+      " ".toList (by decide) (Or.inr (by unfold blank; decide))
+    exact ⟨err, h⟩
+  · obtain ⟨err, h, _⟩ := (C03_reject_missing_operand Gen.tables '*' (Or.inl rfl)).1 " ".toList
+      "m)(".toList (by unfold blank; decide)
+    exact ⟨err, h⟩
 
 end SciVerif.C03
